@@ -364,23 +364,59 @@ def accept_arms(co):
 
 
 def exits_only_on_close_signal(facts, co, loop):
-    """Every normal exit edge of the loop lies under a tokio::select! output variant whose future
-    is the oneshot close receiver.  Returns (ok, n_exits, details)."""
+    """Every normal exit edge of the loop is taken only by executions in which a tokio::select! of that loop resolved
+    through a branch whose future is the oneshot close receiver.  Returns (ok, n_exits, details).
+
+    Decided per exit edge, for a select! inside the loop, in one of two ways:
+      * the edge lies under (is dominated by) an edge of the switch on the select's output enum whose variant was produced
+        by polling only oneshot receivers (the `break` stands in the handler of the close branch); or
+      * by hypothesis, when the select only *classifies* the event and the loop is left further down
+        (`let next = select! { c = accept() => Some(c), _ = &mut rx => None }; let Some(c) = next else { break };`): the
+        task is explored once per output variant under "this select resolves to that variant" (variant_flow follows only
+        the edges such an execution can take -- through the value the arm produced, a flag set in it, a let-else on it);
+        the exit edge must be taken under some variant, and only under variants fed by the close receiver."""
     exits = loop_exits(co, loop)
     ok = bool(exits)
     detail = []
+    selects = [(sbb, info) for sbb, info in discr_switches(co, SELECT_OUT) if sbb in loop]
+    fut_cache = {}
+
+    def futs(sbb, info, vn):
+        if (sbb, vn) not in fut_cache:
+            fut_cache[(sbb, vn)] = select_branch_futures(facts, co, sbb, info, vn)[0]
+        return fut_cache[(sbb, vn)]
+
+    def is_close(tys):
+        return bool(tys) and all("oneshot::Receiver" in x for x in tys)
+    flows = {}
     for u, v in exits:
         found = False
-        for sbb, info in discr_switches(co, SELECT_OUT):
-            if sbb not in loop:
-                continue
+        for sbb, info in selects:
             for vi, vn in info["variants"].items():
                 tgt = co.switch_target(sbb, vi)
                 if co.edge_dominates(sbb, tgt, u) or (u == sbb and v == tgt):
-                    tys, _ = select_branch_futures(facts, co, sbb, info, vn)
-                    if tys and all("oneshot::Receiver" in x for x in tys):
+                    tys = futs(sbb, info, vn)
+                    if is_close(tys):
                         found = True
                     detail.append("exit under select variant %s polled %s" % (vn, sorted(tys)))
+        if not found:
+            for sbb, info in selects:
+                pk = _pkey(info["place"])
+                if pk is None:
+                    continue
+                taken = []
+                for vi, vn in sorted(info["variants"].items()):
+                    if (sbb, vi) not in flows:
+                        flows[(sbb, vi)] = variant_flow(co, assume=lambda pl, pk=pk, vi=vi: vi if _pkey(pl) == pk else None, nested=True)
+                    fl = flows[(sbb, vi)]
+                    if fl.used and u in fl.reach and (u, v) not in fl.dead:
+                        taken.append(vn)
+                if taken and len(taken) < len(info["variants"]):
+                    tys = [futs(sbb, info, vn) for vn in taken]
+                    detail.append("exit taken only when the select resolved to %s, polled %s" % ("/".join(taken), [sorted(x) for x in tys]))
+                    if all(is_close(x) for x in tys):
+                        found = True
+                        break
         if not found:
             ok = False
             detail.append("an exit edge is not under the close-receiver branch")
@@ -451,7 +487,7 @@ class VariantFlow:
         self.reach = fn.reachable(0, avoid_edges=dead) if dead else fn.reachable(0)
 
 
-def variant_flow(fn, assume=None):
+def variant_flow(fn, assume=None, nested=False):
     """Sparse conditional propagation of *which enum variant a place holds* (and of the boolean flags computed
     from that) over the already pruned CFG: a forward must analysis that only follows edges an execution can take.
 
@@ -466,6 +502,10 @@ def variant_flow(fn, assume=None):
     `assume(place) -> variant index | None` adds a hypothesis ("the configured mode is Detached"): the result then
     describes the executions under that hypothesis, whatever the idiom that tests the value (match, if let,
     matches!, `==`, a named flag, early return).
+
+    `nested=True` also remembers the variant of a value that is wrapped into an aggregate (`Poll::Ready(opt)`, `(opt, n)`,
+    `Wrapper { inner: opt }`) under the place of that field, so that it is known again when the field is taken out -- an
+    `async fn` helper that was spliced into its caller hands its result over as `Poll::Ready(result)`.
 
     Without an assumption this is what makes `if x.is_none() { x = Some(..) } match x { Some(v) => v, None =>
     unreachable!() }` equivalent to `x.get_or_insert_with(..)` for the panic census: the None arm is dead code."""
@@ -589,6 +629,13 @@ def variant_flow(fn, assume=None):
                 kv = known(state, rv["pl"], count)
                 if kv is not None:
                     gen = ("v", kv)
+            inner = []
+            if nested and rv["rv"] == "agg" and rv.get("agg") in ("adt", "tuple"):
+                for fi, o in enumerate(rv["ops"]):
+                    if o.get("k") in ("copy", "move"):
+                        ikv = known(state, o["pl"], count)
+                        if ikv is not None:
+                            inner.append((fi, ikv))
             if rv["rv"] in ("ref", "rawptr") and (rv["rv"] == "rawptr" or rv.get("mut")):
                 kill(state, rv["pl"]["l"])
             if rv["rv"] == "use" and rv["op"].get("k") == "move":
@@ -600,6 +647,17 @@ def variant_flow(fn, assume=None):
                     state[("p", wk)] = gen[1]
                 elif gen[0] in ("b", "v", "c") and not w["p"]:
                     state[(gen[0], w["l"])] = gen[1]
+            if inner:
+                wk = _pkey(w)
+                if wk is not None and "*" not in wk[1]:
+                    prefix = wk[1]
+                    if rv.get("agg") == "adt" and gen is not None and gen[0] == "p":     # an enum built as a known variant
+                        prefix = prefix + (("dc", gen[1], rv["variant"]),)
+                    elif rv.get("agg") == "adt" and (fn.facts.adts.get(rv["adt"]) or {}).get("kind") == "enum":
+                        prefix = None
+                    if prefix is not None:
+                        for fi, ikv in inner:
+                            state[("p", (wk[0], prefix + (("f", fi),)))] = ikv
         t = blk["term"]
         per_target = {}
         if t["t"] == "call":
